@@ -21,7 +21,7 @@ import math
 
 import numpy as np
 
-from contracts import C04_ghost, C04_native as N
+from contracts import C04_ghost, C04_gray, C04_native as N
 from vf import lean, native, pyvc
 
 
@@ -123,9 +123,10 @@ def replay_multiplicity(rows, tol=1e-8):
 
 
 # ---------------------------------------------------------------------------------- Gray counter
-def gray_counter_bounded(run):
-    """the assumed contract of n_aryGrayCodeCounter (GC_ctor / GC_next in C04_native) evaluated on the
-    real class for every limit vector with a small product, every start offset"""
+def gray_counter_bounded(run, report_only=False):
+    """the contract of n_aryGrayCodeCounter (proved in contracts/C04_gray.py) evaluated on the real class, compiled
+    from /repo/src, for every limit vector with a small product, every start offset: cross-check of the proof
+    engine and replay of refuted class obligations"""
     import ctypes
 
     lib = native.build()
@@ -173,9 +174,11 @@ def gray_counter_bounded(run):
                     seen_codes.add(tuple(code))
                 if t0 == 0 and len(seen_codes) != total and not fails:
                     fails.append((limits, t0, f"visited {len(seen_codes)} codes of {total}", None))
+    if report_only:
+        return fails
     if fails:
         run.failed("C04/bounded/n_aryGrayCodeCounter-contract", "rtc", "exhaustive-enumeration",
-                   what=f"the contract assumed for n_aryGrayCodeCounter fails on the real class: {fails[0]}",
+                   what=f"the contract of n_aryGrayCodeCounter fails on the real class: {fails[0]}",
                    counterexample={"cases": [repr(f) for f in fails[:5]]}, replay={"kind": "gray"}, reproduced=True)
     run.bounded_result("C04/bounded/n_aryGrayCodeCounter-contract(ctor,next)", domain=f"all limit vectors with 1..4 digits, digits < 8, "
                        f"product <= {pmax}; start offsets {'0, mid, last' if run.tier == 'quick' else 'all'}; runs to the end",
@@ -375,7 +378,13 @@ def check(run):
         res, bc_max = out
         N.report(run, res, on_failed=_on_failed_vc)
         bc_type = "int" if bc_max == 2147483647 else "int64_t"
+    N.check_vector_sum(run)
+    lap = N.check_laplace(run)
+    if lap is not None:
+        N.report(run, lap[0], on_failed=_on_failed_vc)
     C04_ghost.check(run)
+    C04_gray.ON_FAILED[0] = lambda vc, r: _on_failed_gray(run, vc, r)
+    C04_gray.check(run)
     lean.check_lemmas(run, N.SPEC)
     if bc_max is not None:
         binom_max = bc_max     # the factors are computed by the instantiation matching the accumulator (checked by the callee contract)
@@ -385,15 +394,28 @@ def check(run):
     run.trust("vf/cppvc.py clang-AST -> Python-AST translator of the integer skeleton; vf/pyvc.py; z3/cvc5; clang 14")
     run.trust("the Glynn/BBFG formula with binomial weights equals the permanent with repetitions (Eq. 8 of arXiv:2309.07027) and the "
               "Laplace variant (Lemma 1 of arXiv:2005.04214): mathematics, not proved here")
-    run.assume("contract of n_aryGrayCodeCounter (ctor establishes digits in range; next changes exactly one digit by +-1 and reports it; "
-               "returns 1 at offset_max) is ASSUMED in the kernel proof and only bounded-checked on the real class")
+    run.assume("n_aryGrayCodeCounter: the two constructors not used by the kernels (default, 2-argument) and the destructor are not "
+               "verified; `new int[n]` is modelled as a fresh array of n unspecified ints (allocation failure not modelled); the "
+               "class's fields are public: a direct field access in a kernel is translated to the same variable the method "
+               "contracts speak about, so it is subject to the class invariant carried by the kernel's loop invariant")
     run.assume("floating statements are dropped from the skeleton (their index expressions are kept as bounds obligations); no branch or "
                "loop condition depends on a floating value (the translator refuses otherwise)")
     run.assume("unsigned arithmetic is verified under the stricter obligation that it never wraps")
-    run.assume("permanent_laplace_cpp and the float instantiations share the verified source text of the skeleton but are not verified "
-               "separately; torontonian / Pfaffian / hafnian kernels are covered only by the bounded accuracy check; 'no undefined behaviour' "
+    run.assume("the float instantiations of the two permanent kernels share the verified source text of the skeleton but are not "
+               "verified separately; torontonian / Pfaffian / hafnian kernels are covered only by the bounded accuracy check; 'no undefined behaviour' "
                "of the floating kernels is not covered (sanitizers are a different family)")
     run.assume("OpenMP: the parallel loop body is verified for an arbitrary job index; its integer state is loop-local")
+
+
+def _on_failed_gray(run, vc, r):
+    """a refuted obligation of a Gray-counter method: look for a concrete failing (limits, start offset) on the real class"""
+    class _R:
+        tier = "thorough"
+    try:
+        fails = gray_counter_bounded(_R(), report_only=True)
+    except Exception as e:      # the class may not even run
+        return {"replay": {"kind": "gray"}, "reproduced": False, "observed": {"error": str(e)[:300]}}
+    return {"replay": {"kind": "gray"}, "reproduced": bool(fails), "observed": {"cases": [repr(f) for f in fails[:3]]}}
 
 
 def _on_failed_vc(vc, r):
@@ -405,23 +427,30 @@ def _on_failed_vc(vc, r):
 
 
 def replay_threads():
+    """both permanent kernels, compiled from /repo/src, with std::thread::hardware_concurrency() forced: the value must not
+    depend on the number of jobs (patterns include a Gray range that no tested job count divides)"""
     out = {}
     try:
         lib = native.build()
     except Exception as e:
         return {"error": str(e)[:200], "reproduced": False}
-    A = np.array([[0.3 + 0.1j, 0.5], [0.2, 0.7 - 0.2j]])
-    ref = None
+    rng = np.random.default_rng(5)
     bad = []
-    for k in [1, 2, 3, 4, 5, 7, 16, 64, 0, 2 ** 30]:
-        lib.force_threads(k)
-        v = native.permanent(lib, A, [2, 3], [4, 1])
-        if ref is None:
-            ref = v
-        if abs(v - ref) > 1e-12 * abs(ref):
-            bad.append({"hardware_concurrency": k, "value": complex(v), "reference": complex(ref)})
+    for rows, cols in (((2, 3), (4, 1)), ((2, 2, 2, 2, 1), (3, 2, 2, 1, 1)), ((3, 0, 4), (1, 5, 1))):
+        n = len(rows)
+        A = rng.normal(size=(n, n)) + 1j * rng.normal(size=(n, n))
+        for laplace in (False, True):
+            ref = None
+            for k in [1, 2, 3, 4, 5, 7, 16, 64, 0, 2 ** 30]:
+                lib.force_threads(k)
+                v = native.permanent(lib, A, list(rows), list(cols), laplace=laplace)
+                if ref is None:
+                    ref = v
+                if np.max(np.abs(v - ref)) > 1e-11 * max(1.0, float(np.max(np.abs(ref)))):
+                    bad.append({"kernel": "permanent_laplace" if laplace else "permanent", "rows": rows, "cols": cols,
+                                "hardware_concurrency": k, "max_abs_diff": float(np.max(np.abs(v - ref)))})
     lib.force_threads(-1)
-    out["bad"] = bad
+    out["bad"] = bad[:8]
     out["reproduced"] = bool(bad)
     return out
 
@@ -434,6 +463,11 @@ def replay(path):
         out = replay_multiplicity(tuple(r["rows"]))
     elif r.get("kind") == "threads":
         out = replay_threads()
+    elif r.get("kind") == "gray":
+        class _R:
+            tier = "thorough"
+        fails = gray_counter_bounded(_R(), report_only=True)
+        out = {"reproduced": bool(fails), "cases": [repr(f) for f in fails[:5]]}
     else:
         print(rep.get("what"))
         return 1
